@@ -137,6 +137,11 @@ void vf_fd_reset(void);
 int vf_fd_new_input(const void *data, size_t len);  /* returns an fd to read from */
 int vf_fd_new_output(void);                         /* returns an fd that records writes */
 const unsigned char *vf_fd_output(int fd, size_t *len);
+/* the seam functions themselves, for harness code that wants to go through them */
+void *vf_malloc(size_t n);
+void vf_free(void *p);
+char *vf_strdup(const char *s);
+int vf_close(int fd);
 void vf_fd_set_file(const char *path, const void *data, size_t len); /* path visible to vf_open */
 const unsigned char *vf_fd_file_output(const char *path, size_t *len);
 int vf_fd_open_count(void);
